@@ -94,6 +94,21 @@ def check_frame(case, res):
     res.fail("add_frames-1:" + rn, "label=%r +1 -> %r expected %r" % (exp, g3, nxt))
   if not g3 > exp:
     res.fail("labels-not-increasing:" + rn, "label(n)=%r label(n+1)=%r" % (exp, g3))
+  # adding k frames at once equals k single additions, on objects returned by from_frames; a time code obtained earlier for
+  # the same frame count is not affected (each call stands for the frame count it was given, whatever happened to earlier results)
+  k = 2 + n % 3 if n % 1024 else 61 * nominal + n % 7
+  want = ref.label(rate, n + k)
+  a = SmpteTimeCode.from_frames(n, rate)
+  a.add_frames(k)
+  if fields(a) != want:
+    res.fail("add_frames-k:" + rn, "from_frames(%d) +%d -> %r expected %r" % (n, k, fields(a), want))
+  b = SmpteTimeCode.from_frames(n, rate)
+  if fields(b) != exp or b.to_frames() != n:
+    res.fail("from_frames-after-add_frames:" + rn, "from_frames(%d) after add_frames on an earlier result: %r expected %r" % (n, fields(b), exp))
+  for _ in range(k):
+    b.add_frames()
+  if fields(b) != want:
+    res.fail("add_frames-k-vs-singles:" + rn, "label=%r: %d single additions -> %r, add_frames(%d) -> %r" % (exp, k, fields(b), k, want))
   res.nt_key = (exp, t)
 
 
